@@ -275,4 +275,59 @@ LOADER_ENS(input != NULL)
 __CPROVER_ensures(input == NULL ==> __CPROVER_return_value == NULL)
 ;
 #endif
+
+#ifdef VERIF_TU_JWKS
+/* ---- the public forwarding wrappers: jwks_load / jwks_load_strn / jwks_create* hand exactly the
+ * caller's set, text and its TRUE length to the loader, once; no text => NULL (load) or an empty
+ * set (create).  The loaders are replaced by recording projections of their C07 contracts. ---- */
+extern unsigned g_ls_calls; extern const jwk_set_t *g_ls_set; extern const void *g_ls_src; extern size_t g_ls_len; extern int g_ls_empty;
+extern jwk_set_t *g_ls_ret; extern size_t g_last_strlen;
+jwk_set_t *contract_rec___jwks_load_strn(jwk_set_t *jwk_set, const char *jwk_json_str, const size_t len, int empty_allowed)
+__CPROVER_requires(jwk_json_str == NULL || (len < __CPROVER_OBJECT_SIZE(jwk_json_str) - __CPROVER_POINTER_OFFSET(jwk_json_str) && __CPROVER_r_ok(jwk_json_str, len)))
+__CPROVER_assigns(g_ls_calls, g_ls_set, g_ls_src, g_ls_len, g_ls_empty, g_ls_ret)
+__CPROVER_ensures(g_ls_calls == __CPROVER_old(g_ls_calls) + 1 && g_ls_set == jwk_set && g_ls_src == jwk_json_str && g_ls_len == len &&
+	g_ls_empty == empty_allowed && g_ls_ret == __CPROVER_return_value)
+;
+#define DECL_rec_load_from(NAME, T) \
+jwk_set_t *NAME(jwk_set_t *jwk_set, T src) \
+__CPROVER_assigns(g_ls_calls, g_ls_set, g_ls_src, g_ls_ret) \
+__CPROVER_ensures(g_ls_calls == __CPROVER_old(g_ls_calls) + 1 && g_ls_set == jwk_set && g_ls_src == (const void *)src && g_ls_ret == __CPROVER_return_value)
+DECL_rec_load_from(contract_rec_jwks_load_fromfile, const char *);
+DECL_rec_load_from(contract_rec_jwks_load_fromfp, FILE *);
+#define WRAP_ASSIGNS __CPROVER_assigns(g_ls_calls, g_ls_set, g_ls_src, g_ls_len, g_ls_empty, g_ls_ret, g_last_strlen)
+#define WRAP_ONCE(SET, SRC) (g_ls_calls == 1 && g_ls_set == (SET) && g_ls_src == (const void *)(SRC) && __CPROVER_return_value == g_ls_ret)
+jwk_set_t *contract_C07_jwks_load_strn(jwk_set_t *jwk_set, const char *jwk_json_str, const size_t len)
+__CPROVER_requires(g_ls_calls == 0 && (jwk_json_str == NULL || (len < 0x400000000 && __CPROVER_is_fresh(jwk_json_str, len + 1))))
+WRAP_ASSIGNS
+__CPROVER_ensures(WRAP_ONCE(jwk_set, jwk_json_str) && g_ls_len == len && g_ls_empty == 0)
+;
+/* jwks_load: the length handed on is the length of the text (for EVERY length a size_t can hold) */
+jwk_set_t *contract_C07_jwks_load(jwk_set_t *jwk_set, const char *jwk_json_str)
+__CPROVER_requires(g_ls_calls == 0 && (jwk_json_str == NULL || (g_vj_len_a < 0x400000000 && __CPROVER_is_fresh(jwk_json_str, g_vj_len_a + 1) && jwk_json_str[g_vj_len_a] == 0)))
+WRAP_ASSIGNS
+__CPROVER_ensures(jwk_json_str == NULL ==> (__CPROVER_return_value == NULL && g_ls_calls == 0))
+__CPROVER_ensures(jwk_json_str != NULL ==> (WRAP_ONCE(jwk_set, jwk_json_str) && g_ls_len == g_last_strlen && g_ls_empty == 0))
+;
+jwk_set_t *contract_C07_jwks_create(const char *jwk_json_str)
+__CPROVER_requires(g_ls_calls == 0 && (jwk_json_str == NULL || (g_vj_len_a < 0x400000000 && __CPROVER_is_fresh(jwk_json_str, g_vj_len_a + 1) && jwk_json_str[g_vj_len_a] == 0)))
+WRAP_ASSIGNS
+__CPROVER_ensures(WRAP_ONCE(NULL, jwk_json_str) && g_ls_empty == 1)
+__CPROVER_ensures(jwk_json_str != NULL ==> g_ls_len == g_last_strlen)
+;
+jwk_set_t *contract_C07_jwks_create_strn(const char *jwk_json_str, const size_t len)
+__CPROVER_requires(g_ls_calls == 0 && (jwk_json_str == NULL || (len < 0x400000000 && __CPROVER_is_fresh(jwk_json_str, len + 1))))
+WRAP_ASSIGNS
+__CPROVER_ensures(WRAP_ONCE(NULL, jwk_json_str) && g_ls_len == len && g_ls_empty == 0)
+;
+jwk_set_t *contract_C07_jwks_create_fromfile(const char *file_name)
+__CPROVER_requires(g_ls_calls == 0)
+WRAP_ASSIGNS
+__CPROVER_ensures(WRAP_ONCE(NULL, file_name))
+;
+jwk_set_t *contract_C07_jwks_create_fromfp(FILE *input)
+__CPROVER_requires(g_ls_calls == 0)
+WRAP_ASSIGNS
+__CPROVER_ensures(WRAP_ONCE(NULL, input))
+;
+#endif
 #endif
